@@ -136,8 +136,14 @@ struct Interop {
     }
 };
 
-// control 1: the same configuration MatrixSSL <-> MatrixSSL
-bool control_mm(const Plan &p, bool resume) {
+// control 1: the same configuration MatrixSSL <-> MatrixSSL.  0 = passes, 1 = refused at negotiation (a configuration MatrixSSL does not
+// support: handshake_failure / protocol_version / insufficient_security / missing_extension), 2 = fails in any other way (MatrixSSL
+// malfunctioning even against itself: that does not excuse the failure against the independent peer)
+int control_mm(const Plan &p, bool resume) {
+    auto refused = [](TlsWorld &w) {
+        for (auto *e : { w.cli.get(), w.srv.get() }) { if (!e) { continue; } for (auto &a : e->alerts_in) { if (a.desc == 40 || a.desc == 70 || a.desc == 71 || a.desc == 109) { return true; } } }
+        return false;
+    };
     PairCfg pc;
     int ver = (int) p.get("ver"); int cauth = (int) p.get("cauth", 0);
     pc.version = MVER[ver]; pc.suites = { (uint16_t) p.get("suite") }; pc.server_identity = (int) p.get("sid_kind", KK_RSA2048);
@@ -146,10 +152,11 @@ bool control_mm(const Plan &p, bool resume) {
     for (int i = 1; i <= 3; i++) { int64_t g = p.get("grp_m" + std::to_string(i)); if (g) { pc.groups_c.push_back((uint16_t) g); } g = p.get("grp_o" + std::to_string(i)); if (g) { pc.groups_s.push_back((uint16_t) g); } }
     if ((int) p.get("role") == 1) { std::swap(pc.groups_c, pc.groups_s); }
     TlsWorld w;
-    if (!w.setup(pc)) { return false; }
-    if (!w.connect() || !w.handshake()) { return false; }
-    if (resume) { w.cli->app_close(); w.pump(); if (!w.connect() || !w.handshake()) { return false; } }
-    return true;
+    if (!w.setup(pc)) { return 1; }
+    if (!w.connect()) { return 1; }
+    if (!w.handshake()) { return refused(w) ? 1 : 2; }
+    if (resume) { w.cli->app_close(); w.pump(); if (!w.connect()) { return 1; } if (!w.handshake()) { return refused(w) ? 1 : 2; } }
+    return 0;
 }
 // control 2: OpenSSL <-> OpenSSL
 bool control_oo(const Plan &p, bool resume) {
@@ -267,11 +274,11 @@ static RunResult c10_exec(const Plan &p) {
                 std::string stage = i == 0 ? "first" : "resumed";
                 if (!c.ok) {
                     // whose fault?  the same configuration must work for each stack against itself
-                    bool mm = control_mm(p, i > 0), oo = control_oo(p, i > 0);
-                    if (mm && oo) {
-                        res.violate("interop_failure", ctx + "," + stage + (c.mx_complete && c.os_complete ? ",data" : ",handshake"), ctx + " connection " + std::to_string(i) + " (" + stage + "): " + c.why +
-                                    "; the same configuration passes MatrixSSL<->MatrixSSL and OpenSSL<->OpenSSL");
-                    } else { res.count(std::string("not_mutual.") + (mm ? "" : "mm_fails") + (oo ? "" : "oo_fails")); res.states.push_back("not_mutual," + ctx); }
+                    int mm = control_mm(p, i > 0); bool oo = control_oo(p, i > 0);
+                    if (mm != 1 && oo) {
+                        res.violate("interop_failure", ctx + "," + stage + (c.mx_complete && c.os_complete ? ",data" : ",handshake") + (mm == 2 ? ",also_fails_against_itself" : ""), ctx + " connection " + std::to_string(i) + " (" + stage + "): " + c.why +
+                                    (mm == 0 ? "; the same configuration passes MatrixSSL<->MatrixSSL and OpenSSL<->OpenSSL" : "; OpenSSL<->OpenSSL passes this configuration, and MatrixSSL<->MatrixSSL fails it too, but not by refusing to negotiate it"));
+                    } else { res.count(std::string("not_mutual.") + (mm == 1 ? "mm_refuses" : "") + (oo ? "" : "oo_fails")); res.states.push_back("not_mutual," + ctx); }
                     break;
                 }
                 if (c.mx_resumed != c.os_resumed) { res.violate("endpoints_disagree_on_resumption", ctx, ctx + ": matrix resumed=" + std::to_string(c.mx_resumed) + " openssl resumed=" + std::to_string(c.os_resumed)); break; }
